@@ -478,3 +478,113 @@ Example C05_ex_source : wf_ce (capture_epoch_init 4 5 0 capture_epoch_default_au
   extract_epochs_lookback 5 6 [(0, [28; 81]); (2, []); (2, [34; 81; 46; 38])] 7 [47; 12; 97; 69; 53] =
   Some (11, [(2, [34; 81; 46; 38]); (6, [47; 12; 97; 69; 53])]).
 Proof. exact (conj (proj1 wf_ce_ex) (conj (proj1 source_capture_ex) source_lookback_ex)). Qed.
+
+(* ================================================================================================ *)
+(* TRANSLATOR TIE, second part: one WHOLE send(data) of extract_epochs, regenerated from the current source
+   (coq/gen/CaptureGen.v): extract_epochs_drain (the `while removed_queue:` loop with its skip list),
+   extract_epochs_deliver (the chunk to every pending coroutine; finished ones popped), extract_epochs_replay /
+   extract_epochs_intake (the `while queue:` loop: skip list, capture creation, replay of the buffered chunks,
+   duplicate check, filing), and extract_epochs_send (the whole loop body: + stacking / target, tlb, pruning, the
+   all-done callback condition).  Vocabulary (Extract/ProofsTieSend.v):
+     absx g        : the model state a generated state stands for (pending = the coroutine dict through abs)
+     wf_xe g       : the model's domain - dict keys distinct, every pending coroutine auto_send = False, `epochs` empty
+     source_send   : extract_epochs_send with fuel S (S (|rems| + |reqs| + |prior_samples|))
+     source_run    : sends from extract_epochs_init true until one raises;  sout_of : Model.fout as such an output *)
+From PV Require Import Extract.ProofsTieSend.
+
+(* (1) the removal drain = Model.drain: which pending captures are dropped, which notices are kept in `skip` *)
+Theorem C05_source_drain : forall rems fuel d skip nr np, (length rems < fuel)%nat ->
+  (exists nr' np', extract_epochs_drain fuel d rems skip nr np =
+     XOk (fst (drain fst rems d skip), [], snd (drain fst rems d skip), nr', np', false)) /\
+  drain fst rems (map absp d) skip = (map absp (fst (drain fst rems d skip)), snd (drain fst rems d skip)) /\
+  (wf_pend d -> wf_pend (fst (drain fst rems d skip))).
+Proof.
+  exact (fun rems fuel d skip nr np H => conj (drain_tie rems fuel d skip nr np H)
+           (conj (drain_map rems d skip) (drain_wf rems d skip))).
+Qed.
+Print Assumptions C05_source_drain.
+
+(* (3a) the chunk sent to every pending coroutine = Model.send_all: survivors in order, finished ones popped,
+   their epochs appended in order *)
+Theorem C05_source_deliver : forall T data items P E, NoDup (map fst (P ++ items)) -> Forall wfp items ->
+  exists p', extract_epochs_deliver items T (P ++ items) E data =
+               XOk (P ++ p', E ++ snd (send_all T data (map absp items)), false) /\
+             map absp p' = fst (send_all T data (map absp items)) /\ Forall wfp p' /\
+             NoDup (map fst (P ++ p')).
+Proof. exact deliver_tie. Qed.
+Print Assumptions C05_source_deliver.
+
+(* (2a) the buffered chunks replayed into a new coroutine = Model.replay *)
+Theorem C05_source_replay : forall key pr co E, wf_ce co ->
+  match replay (abs co) pr with
+  | CCont c' => exists co', extract_epochs_replay pr E key co = XOk (E, co', false) /\ abs co' = c' /\ wf_ce co'
+  | CDone d => exists co', extract_epochs_replay pr E key co = XOk (E ++ [done_item key (abs co) d], co', true)
+  | CMissed => exists co', extract_epochs_replay pr E key co = XOk (E ++ [missed_item key (abs co)], co', true)
+  end.
+Proof. exact replay_tie. Qed.
+Print Assumptions C05_source_replay.
+
+(* (2b) the request intake = Model.intake (None = ValueError('Duplicate epochs not supported')) *)
+Theorem C05_source_intake : forall pr reqs fuel d E skip nq ni, (length reqs < fuel)%nat -> wf_pend d ->
+  match intake reqs pr (map absp d) skip with
+  | None => extract_epochs_intake fuel d pr E reqs skip nq ni = XRaise RDuplicate
+  | Some (pend', ev) => exists d' skip' nq' ni',
+      extract_epochs_intake fuel d pr E reqs skip nq ni = XOk (d', E ++ ev, [], skip', nq', ni', false) /\
+      map absp d' = pend' /\ wf_pend d'
+  end.
+Proof. exact intake_tie. Qed.
+Print Assumptions C05_source_intake.
+
+(* (3) the whole send = Model.feed_step: every state of the model's domain, every feed, every look-back B >= 0 *)
+Theorem C05_source_send : forall B k g f, 0 <= B -> wf_xe g ->
+  match feed_step B k (absx g) f with
+  | (st', FOut b cb) => exists g' tgt, source_send B k g f = XOk (g', tgt, cb) /\ batch_of_target tgt = b /\
+                                       absx g' = st' /\ wf_xe g'
+  | (_, FErr EDuplicate) => source_send B k g f = XRaise RDuplicate
+  | (_, FErr EStack) => source_send B k g f = XRaise RStack
+  end.
+Proof. exact send_tie. Qed.
+Print Assumptions C05_source_send.
+
+(* ... read from the generated side: it raises nothing but the two exceptions of the model, and stays in the domain *)
+Theorem C05_source_send_total : forall B k g f, 0 <= B -> wf_xe g ->
+  match source_send B k g f with
+  | XOk (g', tgt, cb) => feed_step B k (absx g) f = (absx g', FOut (batch_of_target tgt) cb) /\ wf_xe g'
+  | XRaise e => exists st', feed_step B k (absx g) f = (st', FErr match e with RDuplicate => EDuplicate | _ => EStack end) /\
+                            (e = RDuplicate \/ e = RStack)
+  end.
+Proof. exact source_send_is_feed_step. Qed.
+Print Assumptions C05_source_send_total.
+
+(* the domain is needed: a "dict" with a repeated key *)
+Theorem C05_source_send_refuted : exists B k g f, 0 <= B /\ xe_epochs g = [] /\ Forall wfp (xe_epoch_coroutines g) /\
+  ~ NoDup (map fst (xe_epoch_coroutines g)) /\
+  forall g' tgt cb, source_send B k g f = XOk (g', tgt, cb) ->
+    feed_step B k (absx g) f <> (absx g', FOut (batch_of_target tgt) cb).
+Proof. exact send_tie_refuted. Qed.
+Print Assumptions C05_source_send_refuted.
+
+(* runs of the generated send are runs of the model, with and without the callback: every theorem above about
+   Model.run / run_nocb is a theorem about what the source says now *)
+Theorem C05_source_run_is_model : forall B k fs, 0 <= B ->
+  source_run B k fs = map sout_of (run B k fs) /\ source_run_nocb B k fs = map sout_of (run_nocb B k fs).
+Proof. exact (fun B k fs H => conj (source_run_is_run B k fs H) (source_run_nocb_is_run B k fs H)). Qed.
+Print Assumptions C05_source_run_is_model.
+
+(* C05_refines_spec over runs of the GENERATED send *)
+Theorem C05_source_refines_spec : forall B k fs, 0 <= B -> Forall (fun r => 0 <= r_n r) (all_reqs fs) ->
+  source_run B k fs = map sout_of (spec_run B k fs).
+Proof. exact source_refines_spec. Qed.
+Print Assumptions C05_source_refines_spec.
+
+(* The hypotheses are satisfiable: the schedule ex_sched above, run by the generated send. *)
+Example C05_ex_source_run : wf_xe (extract_epochs_init true) /\
+  source_run 3 (mkkind true false) ex_sched = map sout_of (run 3 (mkkind true false) ex_sched) /\
+  source_run 3 (mkkind true false) ex_sched =
+  [ SOut [] false;
+    SOut [ {| i_key := 0; i_rid := 100; i_s0 := 2; i_data := [12;13;14;15;16]; i_missed := false |};
+           {| i_key := 3; i_rid := 103; i_s0 := 1; i_data := [11;12;13;14;15]; i_missed := false |} ] false;
+    SOut [] false;
+    SOut [ {| i_key := 1; i_rid := 101; i_s0 := 5; i_data := [15;16;17;18;19]; i_missed := false |} ] true;
+    SOut [] false ].
+Proof. split; [exact (proj1 wf_xe_ex)|]. split; vm_compute; reflexivity. Qed.
